@@ -213,6 +213,7 @@ def tplOp (line : String) : String :=
       if hits.isEmpty then "-" else " ".intercalate hits
 
 def handle : List String → String
+  | ["tplnames"] => " ".intercalate (Shk.Tpl.namedTemplates.map (·.1))
   | ["tpl", line] => tplOp line
   | ["esc", pre, t, rest] => escOp false pre t rest
   | ["escold", pre, t, rest] => escOp true pre t rest
